@@ -138,6 +138,31 @@ def worker_main(args) -> int:
     wd = int(cfg.get("watchdog_s", 900))
     faulthandler.dump_traceback_later(wd, exit=True)
     ctx = Ctx(args.id, args.tier, args.seed, args.shard, int(cfg["shards"]), dict(cfg))
+    # per-shard configurations of the library (the properties hold whatever these switches say)
+    conf = []
+    if args.shard % 4 == 3 and not getattr(mod, "NO_POSTPONED", False):
+        os.environ["VERIF_POSTPONED"] = "1"  # core universe declared with `from __future__ import annotations`
+        conf.append("postponed-annotations")
+    if args.shard % 2 == 1:
+        import logging
+
+        from pyoak import config as _cfg
+
+        _cfg.TRACE_LOGGING = True
+        try:
+            import pyoak.legacy.node as _ln
+
+            _ln.TRACE_LOGGING = True
+        except Exception:  # noqa: BLE001
+            pass
+        logging.basicConfig(level=logging.DEBUG, stream=open(os.devnull, "w"))
+        conf.append("trace-logging")
+    if args.shard % 4 == 2 and getattr(mod, "TYPECHECK_OK", False):
+        from pyoak import config as _cfg
+
+        _cfg.RUNTIME_TYPE_CHECK = True
+        conf.append("runtime-type-check")
+    ctx.extra["library_configuration"] = "+".join(conf) or "defaults"
     if args.case is not None:
         ctx.only_case = json.loads(args.case)
     status = "ok"
